@@ -36,9 +36,19 @@ static int inr(double x, const double *range)
 }
 int c18_nonfinite(const double *v, size_t n, const double *range)
 {
+	double lo = 0, hi = 0;
+	volatile double span;
 	if (range && (!isfinite(range[0]) || !isfinite(range[1]))) return 1;
-	for (size_t i = 0; i < n; i++) if (!isfinite(v[i])) return 1;
-	return 0;
+	if (range) { lo = range[0] < range[1] ? range[0] : range[1]; hi = range[0] < range[1] ? range[1] : range[0]; }
+	for (size_t i = 0; i < n; i++) {
+		if (!isfinite(v[i])) return 1;
+		if (v[i] < lo) lo = v[i];
+		if (v[i] > hi) hi = v[i];
+	}
+	/* differences of values/bounds overflow double: crossing fractions cannot be
+	 * formed by the documented formula (see notes/C18.md), totals/progress only */
+	span = hi - lo;
+	return !isfinite(span);
 }
 size_t c18_crossings(const double *v, size_t n, const double *range)
 {
@@ -107,7 +117,8 @@ void c18_check_parts(const char *pfx, const double *v, size_t n, const double *r
 				if (!inr(v[i], range)) vf_fail(key(pfx, "interior-out-of-range"), "%s: interior drawn point [%zu]=%.17g outside [%.17g,%.17g]; %s", pd, i, v[i], range[0], range[1], around(v, n, o, usr, raw));
 			}
 			vf_count("monitor:drawn-portions", 1);
-			if (inr(first, range)) {
+			if (flags & C18_ENDS_FREE) ;
+			else if (inr(first, range)) {
 				VF_CHECK(!p[k].cut, key(pfx, "cut-without-crossing"), "%s: first drawn point %.17g is in range but cut = %u; %s", pd, first, p[k].cut, around(v, n, o, usr, raw));
 			} else {
 				VF_CHECK(usr >= 2 && inr(v[o + 1], range), key(pfx, "drawn-start-out-of-range"), "%s: first drawn point out of range and no in-range successor; range [%.17g,%.17g]; %s", pd, range[0], range[1], around(v, n, o, usr, raw));
@@ -118,7 +129,8 @@ void c18_check_parts(const char *pfx, const double *v, size_t n, const double *r
 					if (fabsl(dec - t) > TOL) vf_fail(key(pfx, "cut-fraction"), "%s: cut decodes to %.9Lf, line from %.17g to %.17g crosses [%.17g,%.17g] at %.9Lf", pd, dec, first, v[o + 1], range[0], range[1], t);
 				} else vf_count("monitor:fraction-skipped-overflow", 1);
 			}
-			if (inr(last, range)) {
+			if (flags & C18_ENDS_FREE) ;
+			else if (inr(last, range)) {
 				VF_CHECK(!p[k].trim, key(pfx, "trim-without-crossing"), "%s: last drawn point %.17g is in range but trim = %u; %s", pd, last, p[k].trim, around(v, n, o, usr, raw));
 			} else if (usr >= 2) {
 				/* usr == 1 with the point out of range was refused above */
